@@ -94,6 +94,7 @@ class Acc(object):
         self.inconclusive = []
         self.vio_count = {}
         self.exhaustive_done = {}
+        self.executions = 0       # executions of the real code, when one case runs many of them
 
     def count(self, name, n=1):
         self.counters[name] = self.counters.get(name, 0) + n
@@ -115,8 +116,11 @@ class Acc(object):
         if n < 3:
             self.violations.append(dict(key=key, what=what, case=enc(case), detail=enc(short(detail))))
 
+    def executed(self, n=1):
+        self.executions += n
+
     def to_json(self):
-        return dict(evaluations=self.evaluations, classes=sorted(self.classes),
+        return dict(evaluations=max(self.evaluations, self.executions), cases=self.evaluations, classes=sorted(self.classes),
                     counters=self.counters, violations=self.violations, samples=self.samples,
                     inconclusive=self.inconclusive, vio_count=self.vio_count,
                     exhaustive_done=self.exhaustive_done)
@@ -204,6 +208,7 @@ def parent_main(pid, tier, seed):
             continue
         r = json.loads(so[k + len(MARK):])
         merged.evaluations += r['evaluations']
+        merged.counters['cases'] = merged.counters.get('cases', 0) + r.get('cases', 0)
         merged.classes.update(r['classes'])
         add_counters(merged.counters, r['counters'])
         for v in r['violations']:
